@@ -391,8 +391,8 @@ def run_impl(impl, cases, args=()):
     return rc, out, err
 
 
-def run_model(model, cases, mode='model'):
-    return vlib.run_lines(model, [line_of(c) for c in cases], [mode])[1]
+def run_model(model, cases, mode='model', timeout=600):
+    return vlib.run_lines(model, [line_of(c) for c in cases], [mode], timeout=timeout)[1]
 
 
 def run_oracle(model, cases, verdicts):
@@ -434,9 +434,13 @@ def run():
     chk.assumptions = ['rule text and category are well-formed UTF-16/UTF-8 (no lone surrogates) and the category has no NUL (it is a C string)',
                        'PCRE2 \\s without the UCP option is exactly HT LF VT FF CR SPACE (probed: U+00A0, U+2003, U+0085, U+001C are name characters)',
                        'categories are at most a few hundred characters (the matcher is quadratic at worst; the generator stops at 255 for the many-wildcard family)']
+    import time as _t
+    ph, t0 = {}, _t.time()
     chk.proof(vlib.proof_leg('Properties_C15', ['category']))
+    ph['proof_leg'] = round(_t.time() - t0, 1); t0 = _t.time()
     model = vlib.build_model('category')
     impl = vlib.build_harness('category')
+    ph['builds'] = round(_t.time() - t0, 1); t0 = _t.time()
     thorough = chk.tier == 'thorough'
     rng = chk.rng
     import collections
@@ -460,13 +464,15 @@ def run():
         chk.fail('implementation crashed or produced no output on a rule text',
                  {'kind': 'crash', 'rc': rc, 'stderr': err_i[-500:], 'rules': cases[k][0], 'categories': cases[k][1]}, kind='crash')
         out_i = out_i + [''] * (len(cases) - len(out_i))
-    out_m = run_model(model, cases)
+    # the models of the two former regex shapes backtrack (exponential on the many-wildcard family): bounded run
+    out_m = run_model(model, cases, timeout=900 if thorough else 90)
     out_i = [v if well_formed(c, v) else ','.join('?????' for _ in c[1]) for c, v in zip(cases, out_i)]
     marks = run_oracle(model, cases, out_i)
     if len(out_m) != len(cases) or len(marks) != len(cases):
-        chk.broke('model driver produced %d/%d lines (oracle %d)' % (len(out_m), len(cases), len(marks)), {'kind': 'driver'})
+        chk.broke('model driver produced %d/%d lines (oracle %d) - timed out or crashed' % (len(out_m), len(cases), len(marks)), {'kind': 'driver'})
         out_m += [''] * (len(cases) - len(out_m)); marks += [''] * (len(cases) - len(marks))
 
+    ph['fixed_order_runs'] = round(_t.time() - t0, 1); t0 = _t.time()
     evaluations = 0
     py_diff = 0
     match_hist, parsed_hist, line_hist = collections.Counter(), collections.Counter(), collections.Counter()
@@ -491,10 +497,12 @@ def run():
             vec_hist['all_pass' if x == '11111' else ('all_blocked' if x == '00000' else 'mixed_by_type')] += 1
             if x != '11111':
                 nontrivial.add((case[0], cat))
-            if x != y:
+            if x != y and b != '':
                 dis_model.append((case[0], cat, x, y))
             if '0' in z or len(z) != 5:
                 falsified.append((case[0], cat, x, z))
+
+    ph['python_statistics'] = round(_t.time() - t0, 1); t0 = _t.time()
 
     def judge(rules, cat):
         """(impl verdicts, oracle marks) of one (rules, category)"""
@@ -517,7 +525,7 @@ def run():
         v, mk = judge(rules, cat)
         c = (rules, [cat])
         spec = run_model(model, [c], 'spec')[0]
-        legacy = run_model(model, [c], 'legacy')[0]
+        legacy = (run_model(model, [c], 'legacy', timeout=30) or ['?'])[0]
         ti = mk.index('0') if '0' in mk else 0
         rep = {'rules': rules, 'category': cat, 'rules_hex_utf16': hx(rules), 'category_hex_utf16': hx(cat),
                'msg_type': TYPES[ti], 'implementation_verdicts': v, 'specified_verdicts': spec,
@@ -526,8 +534,10 @@ def run():
                'wildcards_in_the_rule_text': rules.count('*'), 'category_length': len(cat),
                'falsified_cases_before_shrinking': n_before}
         kind, cls = 'verdict', None
-        if '\n' in cat and v == legacy and v != spec:
-            # the implementation behaves like "^...$" without DotMatchesEverything on this input
+        lf_free = cat.replace('\n', '\ue000')
+        if '\n' in cat and v == legacy and v != spec and not still_bad(rules, lf_free):
+            # the implementation behaves like "^...$" without DotMatchesEverything on this input and is right once the
+            # line feeds are replaced by another character
             kind = 'lf_in_category'
             cls = ('dollar_before_final_lf' if cat.endswith('\n') and run_model(model, [(rules, [cat[:-1]])], 'spec')[0] == v
                    else 'dot_excludes_lf')
@@ -619,6 +629,7 @@ def run():
     if rcs != 0:
         chk.fail('implementation crashed while answering a query sequence', {'kind': 'crash', 'rc': rcs, 'stderr': err_s[-500:]}, kind='crash')
 
+    ph['query_sequences'] = round(_t.time() - t0, 1); t0 = _t.time()
     # cross-check: Qt's QLoggingCategory on the subset of the rule language Qt itself supports
     qh = collections.Counter()
     qcases = [gen_qt_case(rng, qh) for _ in range(20000 if thorough else 2500)]
@@ -640,6 +651,7 @@ def run():
                   'rules %r category %r: CategoryFilter %s QLoggingCategory %s' % (len(qt_diff), r, c, va, vq),
                   {'kind': 'qt_crosscheck', 'rules': r, 'category': c, 'implementation_verdicts': va, 'qloggingcategory_verdicts': vq})
 
+    ph['qt_crosscheck'] = round(_t.time() - t0, 1); t0 = _t.time()
     # thorough: the same cases through the sanitizer build, the single-header build and with a null category pointer
     extra = {}
     if thorough:
@@ -679,6 +691,7 @@ def run():
                                       'differences': len(qt_diff), 'pattern_shapes': dict(qh),
                                       'subset': 'ASCII, one "=", no blank inside the name, "*" only at start and/or end, no backslash or percent sign (QSettings key unescaping), fatal excluded, categories '
                                                 'not qt*/empty, "*suffix" rules only where the first occurrence of the suffix is the final one'},
+                    'phase_wall_s': ph,
                     'many_wildcards_family_histogram': dict(mh),
                     'rule_generator_histogram': dict(hist), 'category_generator_histogram': dict(chist)})
     chk.cov.update(extra)
